@@ -74,9 +74,13 @@ pub enum Hostile {
     /// the answer is withheld and a peer keeps replaying a negative acknowledgement for the
     /// request every 100 ms for the rest of the run
     NackReplay,
+    /// the shred is right in every respect except that its signature was made with a key that is
+    /// not the leader's (over exactly the commitment the leader signed)
+    ShredOtherKey,
 }
 
-pub const ALL_HOSTILE: [Hostile; 13] = [
+pub const ALL_HOSTILE: [Hostile; 14] = [
+    Hostile::ShredOtherKey,
     Hostile::NackReplay,
     Hostile::Nack,
     Hostile::Silence,
@@ -108,6 +112,8 @@ struct Fixture {
     /// alternative validly signed slices of the (Byzantine) leader: different data / other last flag
     alt_data: Vec<[alpenglow::shredder::ValidatedShred; 64]>,
     alt_flag: Vec<[alpenglow::shredder::ValidatedShred; 64]>,
+    /// signature of a non-leader key over each slice's genuine commitment
+    other_key_sig: Vec<[u8; 64]>,
 }
 
 const SLOT: u64 = 2;
@@ -122,13 +128,16 @@ fn fixture(nslices: usize) -> Fixture {
     let block = sign_block(SLOT, &specs, &sk);
     let mut alt_data = Vec::new();
     let mut alt_flag = Vec::new();
+    let mut other_key_sig = Vec::new();
     for j in 0..nslices {
         let mut sp = specs[j].clone();
         sp.txs = vec![vec![0xee; 30 + j]];
         alt_data.push(sign_slice(SLOT, j, j + 1 == nslices, &sp, &sk).1);
         alt_flag.push(sign_slice(SLOT, j, j + 1 != nslices, &specs[j], &sk).1);
+        let foreign = sign_slice(SLOT, j, j + 1 == nslices, &specs[j], &epoch.sig_sks[1]).1;
+        other_key_sig.push(to_mirror::<Shred, MShred>(foreign[0].as_shred()).sig);
     }
-    Fixture { epoch, block, alt_data, alt_flag }
+    Fixture { epoch, block, alt_data, alt_flag, other_key_sig }
 }
 
 fn req_type_of(r: &RepairRequest) -> MReqType {
@@ -364,6 +373,10 @@ fn run_history_env(fx: &Fixture, deviations: &BTreeMap<usize, Hostile>, env: Env
                                 MResponse::LastSliceRoot(a, _, c, p) => vec![MResponse::LastSliceRoot(a, 1023, c, p)],
                                 other => vec![other],
                             },
+                            (Hostile::ShredOtherKey, Some(m)) => match (&t, m) {
+                                (MReqType::Shred(_, sl, _), MResponse::Shred(a, mut s)) => { s.sig = fx.other_key_sig[*sl as usize]; vec![MResponse::Shred(a, s)] }
+                                (_, other) => vec![other],
+                            },
                             (_, None) => vec![],
                         };
                         for c in crafted {
@@ -593,6 +606,50 @@ fn responder_sweep(report: &Report, fx: &Fixture) -> usize {
         });
     }
     cases
+}
+
+/// C12 through the repair path: shreds that are right in everything but the signature (one bit
+/// flipped, or made with another validator's key over the genuine commitment) answer one, several
+/// or all shred requests of a repair; nothing that does not carry the leader's signature may end
+/// up stored (and thereby served to others) under the block's id. Returns the histories run.
+pub fn c12_repair_probe(report: &Report, tier: Tier) -> usize {
+    let mut runs = 0;
+    for nslices in tier.pick(vec![1usize, 2], vec![1, 2, 3]) {
+        let fx = fixture(nslices);
+        let base = run_history(&fx, &BTreeMap::new());
+        if !base.stored || base.foreign_stored {
+            crate::common::machinery_failure("C12 repair probe: undisturbed repair did not store the block");
+        }
+        let first = 2 + nslices;
+        let shred_positions: Vec<usize> = (first..=base.requests).collect();
+        let mut histories: Vec<(String, BTreeMap<usize, Hostile>)> = Vec::new();
+        for h in [Hostile::ShredCorrupted, Hostile::ShredOtherKey] {
+            histories.push((format!("{h:?}@every-shred-request"), shred_positions.iter().map(|p| (*p, h)).collect()));
+            histories.push((format!("{h:?}@every-second-shred-request"), shred_positions.iter().step_by(2).map(|p| (*p, h)).collect()));
+            let singles: Vec<usize> = match tier {
+                Tier::Quick => vec![first, first + 1, first + 31, first + 32, base.requests],
+                Tier::Thorough => shred_positions.clone(),
+            };
+            for p in singles.into_iter().filter(|p| *p <= base.requests) {
+                histories.push((format!("{h:?}@shred-request"), [(p, h)].into_iter().collect()));
+            }
+        }
+        let outcomes: Vec<(String, BTreeMap<usize, Hostile>, Outcome)> = histories.into_par_iter().map(|(n, d)| { let o = run_history(&fx, &d); (n, d, o) }).collect();
+        for (name, d, o) in outcomes {
+            runs += 1;
+            let replay = json!({"oracle": "repair-admission", "slices": nslices, "hostile": d.iter().map(|(p, h)| format!("{h:?}#{p}")).collect::<Vec<_>>()});
+            if let Some(p) = &o.panic {
+                report.violation(format!("C12:repair-admission-panics:{name}"), p.clone(), replay);
+            } else if o.foreign_stored {
+                report.violation(
+                    format!("C12:shred-without-leader-signature-admitted-through-repair:{name}"),
+                    format!("{nslices}-slice block: after repair answers whose shreds differ from the genuine ones only in the signature, the blockstore holds (and would serve) shreds under the block's id that do not verify under the leader's key"),
+                    replay,
+                );
+            }
+        }
+    }
+    runs
 }
 
 pub fn run(tier: Tier) -> i32 {
